@@ -50,7 +50,7 @@ PATH_SITES: List[str] = []  # sites passed on the current path (reset by the dri
 REACHED: Dict[str, int] = {}  # site -> number of confirmed paths through it (driver)
 
 
-def hold(site: str, cond: Any, label: str = "") -> bool:
+def hold(site: str, cond: Any, label: Any = "") -> bool:
     """The property was evaluated at `site`; `cond` must be true there."""
     PATH_SITES.append(site)
     if TWIN_SITE is not None:
@@ -58,6 +58,8 @@ def hold(site: str, cond: Any, label: str = "") -> bool:
             raise Violated("twin:" + site)
         return True
     if not cond:
+        if callable(label):  # lazy label: only rendered in plain-Python replay (may format symbolic containers)
+            label = label() if REPLAY else ""
         raise Violated(site + (":" + label if label else ""))
     return True
 
